@@ -25,6 +25,11 @@ def limit_cases() -> List[Tuple[str, str, bytes, str, str]]:
     ml, mll, mv = conn._MAX_BANNER_LINES, conn._MAX_BANNER_LINE_LEN, conn._MAX_VERSION_LINE_LEN
     return [
         ('banner-lines', 'client', b'hello\r\n' * (ml + 6) + b'SSH-2.0-late\r\n', 'Too many banner lines', 'c10:banner-lines-unbounded'),
+        # lines of every shape count: empty ones (LF or CR LF only), blank ones, and a mixture
+        ('banner-lines-empty', 'client', b'\n' * (ml + 6) + b'SSH-2.0-late\r\n', 'Too many banner lines', 'c10:banner-lines-unbounded'),
+        ('banner-lines-crlf', 'client', b'\r\n' * (ml + 6) + b'SSH-2.0-late\r\n', 'Too many banner lines', 'c10:banner-lines-unbounded'),
+        ('banner-lines-mixed', 'client', (b'\n \r\nx\n\r\r\n') * (ml // 4 + 6) + b'SSH-2.0-late\r\n', 'Too many banner lines',
+         'c10:banner-lines-unbounded'),
         ('banner-line-length', 'client', b'z' * (3 * mll), 'Banner line too long', 'c10:banner-line-unbounded'),
         ('banner-line-length', 'server', b'z' * (3 * mll), 'Banner line too long', 'c10:banner-line-unbounded'),
         ('version-length', 'client', b'SSH-2.0-' + b'v' * (mv + 50) + b'\r\n', 'Version too long', 'c10:version-line-unbounded'),
